@@ -47,6 +47,12 @@ def cases(ctx):
                     continue
                 add([("ca.yaml", cfg("CN=issuer", keyAlgorithm=ik, signatureAlgorithm=isigs[1])),
                      ("sub/e.yaml", cfg("CN=sub", issuer="ca", keyAlgorithm=k, signatureAlgorithm=s))], k, s, "sub under " + ik)
+    # an entity that HAS a key already (user-supplied PKCS#8) and whose configuration names no algorithm at all: the default
+    # signature scheme is that of the entity's key type
+    for k in ("P-256", "RSA-1024", "P-384"):
+        c = case(len(out) + 1, [("e.yaml", cfg("CN=root with its own %s key" % k))], tag={"prop": "C05", "ent": "e", "class": "own key %s, nothing configured" % k, "key": "", "sig": "", "ownKey": k})
+        c["files"].append({"path": "e.pem", "make": {"kind": "key", "key": k, "variant": ""}})
+        out.append(c)
     return out
 
 
